@@ -55,7 +55,7 @@ def readNameC (o : Options) (c : Cur) : Res (Option Slice) :=
     else
       (advR (1 + spanLen isNameChar r) c).bind fun _ c' =>
         let len := c'.pos - c.pos
-        if len > o.maxName then .ok none c' else .ok (some ⟨c.pos, len⟩) c'
+        if len > o.maxName then (if o.throwing then .fail .nameTooLong c' else .ok none c') else .ok (some ⟨c.pos, len⟩) c'
 
 /-- mirrors `readUntil(endSeq, start, len)`: `none` = returned false (cursor untouched) -/
 def readUntilC (endSeq : Bytes) (c : Cur) : Res (Option Slice) :=
